@@ -359,6 +359,30 @@ def q_hyb_filter_a(P, v):
     set_hv(v); return ids(select(p for p in P).filter(lambda p: hyb_a(p)))
 def q_hyb_order(P, v):
     set_hv(v); return [p.id for p in select(p for p in P).filter(lambda p: hyb_a(p)).order_by(lambda p: (p.a, p.id))]
+# the SAME argument-less expression (text, or one zero-argument function object) used as order_by / sort_by and as filter / where
+# on the same base query: the refinement kind must be part of the translator key
+def base_all(P): return select(p for p in P)
+TEXTS = ['p.b', 'p.a > 2', 'p.s', 'p.a']
+ZF = [lambda: p.b, lambda: p.a > 2, lambda: p.a]
+def _refine(P, method, arg):
+    q = getattr(base_all(P), method)(arg)
+    return [p.id for p in q] if method in ('order_by', 'sort_by') else ids(q)
+def q_text_order_by(P, t): return _refine(P, 'order_by', TEXTS[t])
+def q_text_sort_by(P, t): return _refine(P, 'sort_by', TEXTS[t])
+def q_text_filter(P, t): return _refine(P, 'filter', TEXTS[t])
+def q_text_where(P, t): return _refine(P, 'where', TEXTS[t])
+def q_zf_order_by(P, t): return _refine(P, 'order_by', ZF[t])
+def q_zf_filter(P, t): return _refine(P, 'filter', ZF[t])
+def q_zf_where(P, t): return _refine(P, 'where', ZF[t])
+# QueryResult.reverse() / sort() work on the list that the session's result cache holds
+def q_ordered(P, x): return select(p.a for p in P if p.a > x).order_by(1)
+def q_result_plain(P, x): return list(q_ordered(P, x)[:])
+def q_result_reverse(P, x):
+    r = q_ordered(P, x)[:]; first = list(r); r.reverse()
+    return [first, list(r)]
+def q_result_sort(P, x):
+    r = q_ordered(P, x)[:]; first = list(r); r.sort(reverse=True)
+    return [first, list(r)]
 def q_rawq(P, x): return srt(select(p.id for p in P if raw_sql("p.a > $x"))[:])
 def q_rawexpr(P, x): return srt(select((p.id, raw_sql("p.a + $x")) for p in P)[:])
 def r_select(db, x): return srt(db.select("select id from P where a > $x"))
@@ -398,6 +422,8 @@ class Env(object):
 QUERIES = {f.__name__: f for f in [q_cmp, q_cmpb, q_ne, q_date, q_str, q_in, q_slice, q_slice1, q_slice2, q_getattr, q_obj, q_fcall, q_lambda, q_lambda_s,
                                   q_strq, q_strq2, q_strlambda, q_filter, q_filter_s, q_where_a, q_where_b, q_order_s, q_order_d, q_order_l,
                                   q_count, q_sum, q_min, q_max, q_avg, q_countd, q_exists, q_first, q_get, q_page, q_limit, q_distinct, q_nodistinct,
+                                  q_text_order_by, q_text_sort_by, q_text_filter, q_text_where, q_zf_order_by, q_zf_filter, q_zf_where,
+                                  q_result_plain, q_result_reverse, q_result_sort,
                                   q_base, q_base_count, q_base_limit, q_base_sum, q_derived, q_derived_plain, q_derived_limit, q_derived_nested, q_derived_filter,
                                   q_derived_then_base, q_hyb_filter, q_hyb_where, q_hyb_select, q_hyb_filter_a, q_hyb_order,
                                   q_count_d, q_sum_d, q_avg_d, q_gc, q_count_ent_d, q_nested_slice, q_eval_lambda, q_eval_gen, q_eval_filter,
@@ -558,6 +584,8 @@ def gen_value(rng, kinds):
     if k == 'tuple': return ['@tuple'] + [rng.choice(INTS) for _ in range(rng.choice([0, 1, 2, 3]))]
     if k == 'list': return ['@list'] + [rng.choice(INTS) for _ in range(rng.choice([0, 1, 2, 3]))]
     if k == 'strtuple': return ['@tuple'] + [rng.choice(['a', 'b']) for _ in range(rng.choice([1, 2]))]
+    if k == 'txt': return rng.randrange(4)
+    if k == 'zf': return rng.randrange(3)
     if k == 'lim': return rng.choice([1, 2, 3])
     if k == 'tri': return rng.choice([None, False, True])
     if k == 'sep': return rng.choice([None, ',', '|'])
@@ -586,6 +614,9 @@ QSPEC = [   # (step, argument kinds per position, weight)
     ('e_select_ab', [['int'], ['int', 'none']], 2),
     ('q_count_d', [['int'], ['tri']], 3), ('q_sum_d', [['int'], ['tri']], 1), ('q_avg_d', [['int'], ['tri']], 1), ('q_gc', [['int'], ['sep'], ['tri']], 1),
     ('q_count_ent_d', [['int'], ['tri']], 1), ('q_nested_slice', [['bound', 'none'], ['bound', 'none']], 2),
+    ('q_text_order_by', [['txt']], 2), ('q_text_sort_by', [['txt']], 1), ('q_text_filter', [['txt']], 2), ('q_text_where', [['txt']], 2),
+    ('q_zf_order_by', [['zf']], 2), ('q_zf_filter', [['zf']], 2), ('q_zf_where', [['zf']], 1),
+    ('q_result_plain', [['int']], 2), ('q_result_reverse', [['int']], 1), ('q_result_sort', [['int']], 1),
     ('q_base', [['int']], 3), ('q_base_count', [['int']], 2), ('q_base_limit', [['int'], ['lim']], 2), ('q_base_sum', [['int']], 1),
     ('q_derived', [['int'], ['int']], 3), ('q_derived_plain', [['int']], 1), ('q_derived_limit', [['int'], ['lim'], ['int']], 1), ('q_derived_nested', [['int'], ['int']], 1),
     ('q_derived_filter', [['int'], ['int']], 1), ('q_derived_then_base', [['int'], ['int']], 2),
@@ -727,6 +758,8 @@ def classify(minimal):
         return 'db-insert-cache:returning-concatenated-with-columns'   # every step of a minimal history is needed: the two statements share a key
     if names and all(n == 'q_fcall' for n in names) and any(s[1] == ['@fn', 'count'] for s in minimal if s[0] == 'q_fcall'):
         return 'extractors-cache:call-name-classified-once-per-code-object'
+    if names and all(n in ('q_result_plain', 'q_result_reverse', 'q_result_sort') for n in names) and any(n != 'q_result_plain' for n in names):
+        return 'result-cache:query-result-mutators-share-cached-list'
     if 'objflush' in names and 'set_hook' in names:
         return 'result-cache:entity-flush-does-not-clear'
     return None
@@ -758,7 +791,7 @@ def random_histories(ctx):
     flush_protocol(ctx)
 
 
-POOL = {'lim': [1, 2, 3], 'tri': [None, False, True], 'sep': [None, ',', '|'], 'cond': [0, 1, 2, 3, 4, 5], 'bound': [1, 2, 3, -1, -2], 'int': [1, 3, -1], 'none': [None], 'str': ['ab', 'b%'], 'date': [['@date', 2020, 1, 1], ['@date', 2021, 1, 1]], 'bool': [True], 'float': [1.5],
+POOL = {'txt': [0, 1, 2, 3], 'zf': [0, 1, 2], 'lim': [1, 2, 3], 'tri': [None, False, True], 'sep': [None, ',', '|'], 'cond': [0, 1, 2, 3, 4, 5], 'bound': [1, 2, 3, -1, -2], 'int': [1, 3, -1], 'none': [None], 'str': ['ab', 'b%'], 'date': [['@date', 2020, 1, 1], ['@date', 2021, 1, 1]], 'bool': [True], 'float': [1.5],
         'tuple': [['@tuple'], ['@tuple', 1], ['@tuple', 1, 3]], 'list': [['@list', 1], ['@list', 0, 3]], 'strtuple': [['@tuple', 'a']],
         'obj': [['@obj', 'G', 1], ['@obj', 'G', 2]], 'pobj': [['@obj', 'P', 1]]}
 SPECIALS = [
@@ -772,6 +805,9 @@ SPECIALS = [
     [['q_subq', 0], ['q_subq', 1], ['q_from', 0, 5], ['q_from', 1, 3]],
     [['q_derived', 1, 3], ['q_base', 1], ['q_base_count', 1], ['q_base_limit', 1, 2], ['q_base_sum', 1], ['q_derived_plain', 1], ['q_derived_limit', 1, 2, 5], ['q_derived_nested', 1, 5],
      ['q_derived_filter', 1, 3], ['q_derived', 0, 2]],
+    [['q_text_order_by', 0], ['q_text_filter', 0], ['q_text_where', 0], ['q_text_sort_by', 0], ['q_text_order_by', 1], ['q_text_filter', 1], ['q_text_where', 1]],
+    [['q_zf_order_by', 0], ['q_zf_filter', 0], ['q_zf_where', 0], ['q_zf_order_by', 1], ['q_zf_filter', 1], ['q_zf_where', 1]],
+    [['q_result_plain', 0], ['q_result_reverse', 0], ['q_result_sort', 0], ['q_result_plain', 1]],
     [['q_hyb_filter', None], ['q_hyb_filter', 1], ['q_hyb_filter', 0], ['q_hyb_where', None], ['q_hyb_where', 1], ['q_hyb_select', None], ['q_hyb_select', 3]],
     [['q_nested_stop', 1], ['q_nested_stop', 2], ['q_nested_stop', 3], ['q_nested_stop', -1], ['q_nested_stop', None]],
     [['q_nested_start', 1], ['q_nested_start', 2], ['q_nested_start', 3], ['q_nested_start', -1]],
@@ -1139,6 +1175,14 @@ def witnesses(ctx):
         ctx.violation('Entity.flush() writes the object without clearing cache.query_results: a query executed inside a before_* hook (flush disabled, so the '
                       'auto-flush does not clear the cache either) after a previous obj.flush() is answered from the stale cached result',
                       {'history': h}, observed={'warm': d[1]}, expected={'cold': d[2]}, key='result-cache:entity-flush-does-not-clear')
+    # 4. QueryResult.reverse() / sort() / shuffle() mutate the list object that cache.query_results holds
+    h = [['q_result_reverse', 0], ['q_result_plain', 0], ['end']]
+    d = differs(h)
+    ctx.case(['witness', 'queryresult-mutators'], kind='witness:query-result-mutators')
+    if d is not None:
+        ctx.violation('QueryResult.reverse() / sort() / shuffle() mutate in place the very list that Query._actual_fetch stored in cache.query_results: after r = q[:]; r.reverse() the same '
+                      'query executed again in the session (same code object, same arguments) returns the reversed list although it has an ORDER BY',
+                      {'history': h}, observed={'warm': d[1]}, expected={'cold': d[2]}, key='result-cache:query-result-mutators-share-cached-list')
     # sensitivity of the oracle itself: a planted stale entry must be seen
     MODE['cold'] = False
 
